@@ -632,7 +632,11 @@ impl<const N: usize> Exec<N> {
         // reference image: what a complete save of this graph looks like (no fault, scratch path).
         // Whatever the faulted save leaves behind is classified against it, so the harness does
         // not have to assume how save() writes (in place, streaming, temp file + rename, fsync).
-        let reference: Option<Vec<u8>> = if poisoned {
+        // Only a faulted save needs it: every save() the harness issues on its own runs on the same
+        // thread as the code under test and would wash out whatever a failed save() left behind in
+        // that code's hidden state (a scratch buffer that is cleared only on success, say) before the
+        // next save() of the plan meets it.
+        let reference: Option<Vec<u8>> = if poisoned || matches!(fault, WFault::None | WFault::CrashAfter) {
             None
         } else {
             let refname = "reference.sodg";
@@ -969,25 +973,22 @@ impl<const N: usize> Exec<N> {
                 let lowest = (0..st.m.cap).find(|v| !st.m.is_present(*v));
                 if let Some(lowest) = lowest {
                     let gg = self.gs[dst].as_ref().unwrap();
-                    match guarded(|| {
+                    let verdict = match guarded(|| {
                         let mut c = gg.clone();
                         c.next_id()
                     }) {
-                        Ok(id) if id == lowest => {}
-                        Ok(id) => {
-                            return fail(
-                                "reload.allocator-restart",
-                                clauses::C08,
-                                format!("first next_id() after load() is {id}, lowest absent id is {lowest}"),
-                            )
+                        Ok(id) if id == lowest => None,
+                        Ok(id) => Some(format!("first next_id() after load() is {id}, lowest absent id is {lowest}")),
+                        Err(c) => Some(format!("first next_id() after load() panicked: {c:?}")),
+                    };
+                    if let Some(msg) = verdict {
+                        let f = fail::<()>("reload.allocator-restart", clauses::C08, msg).unwrap_err();
+                        if self.owned(&f) {
+                            return Err(f);
                         }
-                        Err(c) => {
-                            return fail(
-                                "reload.allocator-restart",
-                                clauses::C08,
-                                format!("first next_id() after load() panicked: {c:?}"),
-                            )
-                        }
+                        // asked on a copy, so nothing has changed: a check that does not own the
+                        // clause goes on to its own clauses
+                        self.stats.bump("foreign.passed_over.reload.allocator-restart");
                     }
                 }
                 self.refresh_hints(dst);
